@@ -1,7 +1,7 @@
 (* C02 -- Parsing is total: an error or a valid profile for any bytes.
    Property theorems only.  Model: M_Codec (protobuf path) + M_Valid (CheckValid, ParseData
    dispatch with the gzip reader and the legacy parsers as arbitrary oracles). *)
-From PV Require Import M_Codec M_Valid S_Valid L_Codec_Total L_Valid L_Codec_Parsed.
+From PV Require Import M_Codec S_Codec M_Valid S_Valid L_Codec_Total L_Valid L_Codec_Parsed L_Codec_Main L_Codec_Range.
 Open Scope list_scope.
 Open Scope Z_scope.
 
@@ -55,8 +55,26 @@ Theorem parsed_profile_can_be_written_partial : forall data q,
 Proof. exact parsed_serializes. Qed.
 Print Assumptions parsed_profile_can_be_written_partial.
 
-(* the rest of that clause (Copy, Compact, every text report never crash) is explored by the harness
-   on every accepted input; the models of those operations belong to C03/C04/C05/C17/C18 *)
+(* what the protobuf parser returns and CheckValid accepts is a valid profile in the full sense of
+   the codec's specification (S_Codec.valid_b: every decoded number in its Go type's range -- decodeVarint
+   yields < 2^64 --, regrouped labels sorted, every reference listed) with well-formed unit lists: the
+   bridge from C02 to the round-trip theorems of C01 *)
+Theorem parsed_profile_is_valid : forall data q,
+  parse_uncompressed data = Ok q -> check_valid q = true -> valid_b q = true /\ units_wf_b q = true.
+Proof. intros data q H C. split; [exact (parsed_valid_lemma data q H C)|exact (parsed_units_wf data q H)]. Qed.
+Print Assumptions parsed_profile_is_valid.
+
+(* "... and copied without a crash": Copy (= parse (serialize q)) of such a profile succeeds and is its
+   normal form ([size_ok r]: lengths fit Go's int, see C01) *)
+Theorem parsed_profile_can_be_copied : forall data q r,
+  parse_uncompressed data = Ok q -> check_valid q = true -> pre_encode q = Ok r -> size_ok r ->
+  copy q = Ok (normalize q).
+Proof. exact parsed_copy_lemma. Qed.
+Print Assumptions parsed_profile_can_be_copied.
+
+(* the rest of that clause (Compact, every text report never crash; the legacy parsers' results) is
+   explored by the harness on every accepted input; the models of those operations belong to
+   C03/C04/C05/C17/C18 *)
 Definition full_statement_valid_closed_under_ops : Prop :=
   forall gunzip legacy data p, parse_data gunzip legacy data = Ok p ->
     no_panic (serialize p) /\ no_panic (copy p).
